@@ -12,7 +12,7 @@
    where the algorithm is order-dependent).  Duplicate-freedom is proved for graphs without cycles (9) and
    observed per run elsewhere. *)
 From Verif Require Import Base.Str Base.Outcome Model.Ast Model.Printer Model.WGraph Model.WWeights
-  Spec.GraphWeights Proofs.WildcardProofs Proofs.WeightsProofs Proofs.GraphPrims Proofs.DagWeights Proofs.DagCheck Proofs.Witnesses.
+  Spec.GraphWeights Proofs.WildcardProofs Proofs.WeightsProofs Proofs.GraphPrims Proofs.DagWeights Proofs.DagCheck Proofs.Witnesses Proofs.BuilderFresh Proofs.DagModel.
 
 Theorem C11_merge_keeps_duplicate_free : forall into from, NoDup into -> NoDup from -> NoDup (merge_wild into from).
 Proof. exact merge_wild_NoDup. Qed.
@@ -56,3 +56,10 @@ Theorem C11_acyclic_graph_no_duplicates : forall g0 rank order g',
   forall x, is_terminal (n_type (node_of g0 x)) = false ->
     NoDup (n_wild (node_of g' x)) /\ (forall e, In e (edges_from g' x) -> NoDup (e_wild e)).
 Proof. exact dag_wildcards_nodup. Qed.
+
+(* 10. for graphs the builder made *)
+Theorem C11_built_graph_wildcards : forall m g, wbuild m = Ok g -> acyclic_check g = true ->
+  forall o g', build_weighted o m = Ok g' ->
+  forall x, In x (order_used o g) -> is_terminal (n_type (node_of g x)) = false ->
+    (forall T, In T (n_wild (node_of g' x)) <-> reaches_wild g x T) /\ NoDup (n_wild (node_of g' x)).
+Proof. exact built_wildcards. Qed.
